@@ -2215,7 +2215,8 @@ def _config_str(
     for (scope, selector), config in configuration_object.items():
       if _REGISTRY[selector].wrapped == macro:  # pylint: disable=comparison-with-callable
         # As for other bindings, omit values that can't be parsed back.
-        if _is_literally_representable(config.get('value')):
+        # A macro that was referenced but never bound has no value (yet).
+        if 'value' in config and _is_literally_representable(config['value']):
           macros[scope, selector] = config
     if macros:
       formatted_statements.append('# Macros:')
